@@ -10,9 +10,7 @@ Local Notation len := List.length.
 (* ---------- DataOutput / DataInput round trips ---------- *)
 Lemma read_u16_write n r : n < 65536 -> read_u16 (write_u16 n ++ r) = Some (n, r).
 Proof.
-  intro H. unfold write_u16. cbn [app]. destruct r as [|x r]; cbn [read_u16].
-  - f_equal. f_equal. lia.
-  - f_equal. f_equal. lia.
+  intro H. unfold write_u16. cbn [app read_u16]. f_equal. f_equal. lia.
 Qed.
 
 Lemma firstn_skipn_app {A} (s r : list A) :
@@ -50,6 +48,22 @@ Proof.
   - rewrite read_i32_write by exact Hf. now rewrite IH.
   - unfold write_u16. cbn [app]. rewrite IH. cbn in Hf. f_equal. f_equal. f_equal. lia.
 Qed.
+
+(* strict reads: a truncated length prefix or body is an error *)
+Lemma read_utf_truncated : forall bs,
+  (N.of_nat (len bs) < 2 -> read_utf bs = None) /\
+  (forall a b r, bs = a :: b :: r -> N.of_nat (len r) < a * 256 + b -> read_utf bs = None).
+Proof.
+  intro bs. split.
+  - intro H. destruct bs as [|a [|b r]]; try reflexivity. cbn in H. lia.
+  - intros a b r -> H. unfold read_utf. cbn [read_u16].
+    apply N.ltb_lt in H. now rewrite H.
+Qed.
+
+(* a request whose sub-channel name cannot be read is not handled and has no effect, in every variant *)
+Lemma truncated_request_ignored : forall F st req oracle ch data,
+  read_utf data = None -> model F st req oracle ch data = (false, []).
+Proof. intros F st req oracle ch data H. unfold model. rewrite H. destruct (_ || _); reflexivity. Qed.
 
 (* ---------- responses ---------- *)
 Lemma respond_in owner d o m x : In (EResponse o m x) (respond owner d) ->
@@ -331,11 +345,14 @@ Definition st0 : pstate := mkPS [alice; bob] [mkS (tx "lobby") (tx "10.0.0.1") 2
 Definition payload0 : bytes := write_utf (tx "MyChan") ++ write_u16 3 ++ [1; 2; 3].
 Definition req_of (name : string) (args : bytes) : bytes := write_utf (tx name) ++ args.
 
-(* k=1: 00 06 "MyChan" 00 03 01 02 03 is forwarded as "MyChan" 00 03 01 02 03 *)
+(* k=1 (repaired by 8f84347; about the pre-fix variant model none_fixed):
+   00 06 "MyChan" 00 03 01 02 03 was forwarded as "MyChan" 00 03 01 02 03; today's code agrees with the spec *)
 Lemma refuted_1 :
-  snd (impl_bungee st0 alice [] s_BungeeCord (req_of "Forward" (write_utf (tx "games") ++ payload0)))
+  snd (model none_fixed st0 alice [] s_BungeeCord (req_of "Forward" (write_utf (tx "games") ++ payload0)))
     = [EForward (tx "games") (tx "MyChan" ++ write_u16 3 ++ [1; 2; 3])] /\
   snd (spec_bungee st0 alice [] s_BungeeCord (req_of "Forward" (write_utf (tx "games") ++ payload0)))
+    = [EForward (tx "games") payload0] /\
+  snd (impl_bungee st0 alice [] s_BungeeCord (req_of "Forward" (write_utf (tx "games") ++ payload0)))
     = [EForward (tx "games") payload0].
 Proof. vm_compute. auto. Qed.
 
@@ -365,14 +382,19 @@ Lemma refuted_4 :
     = [EMessage (TServer (tx "games")) (tx "hi")].
 Proof. vm_compute. auto. Qed.
 
-(* k=6: announced length ff ff (-1 as int16) panics; a body shorter than announced broadcasts an empty payload *)
+(* k=6 (repaired by 37918de; about the pre-fix variant): announced length ff ff (-1 as int16) panicked, a body
+   shorter than announced broadcast an empty payload; today's code ignores both like the spec *)
 Lemma refuted_6 :
-  snd (impl_bungee st0 alice [] s_BungeeCord
+  snd (model none_fixed st0 alice [] s_BungeeCord
          (req_of "Forward" (write_utf (tx "games") ++ write_utf (tx "MyChan") ++ [255; 255]))) = [EPanic] /\
-  snd (impl_bungee st0 alice [] s_BungeeCord
+  snd (model none_fixed st0 alice [] s_BungeeCord
          (req_of "Forward" (write_utf (tx "games") ++ write_utf (tx "MyChan") ++ [0; 9; 1]))) = [EForward (tx "games") []] /\
   snd (spec_bungee st0 alice [] s_BungeeCord
-         (req_of "Forward" (write_utf (tx "games") ++ write_utf (tx "MyChan") ++ [255; 255]))) = [].
+         (req_of "Forward" (write_utf (tx "games") ++ write_utf (tx "MyChan") ++ [255; 255]))) = [] /\
+  snd (impl_bungee st0 alice [] s_BungeeCord
+         (req_of "Forward" (write_utf (tx "games") ++ write_utf (tx "MyChan") ++ [255; 255]))) = [] /\
+  snd (impl_bungee st0 alice [] s_BungeeCord
+         (req_of "Forward" (write_utf (tx "games") ++ write_utf (tx "MyChan") ++ [0; 9; 1]))) = [].
 Proof. vm_compute. auto. Qed.
 
 (* a full decode of a concrete answer with DataInput primitives *)
@@ -388,10 +410,8 @@ Proof. vm_compute. reflexivity. Qed.
 (* k=5 (adapter layer): Forward games lands on the CLIENT connection of every player of "games",
    nothing reaches the backend; one copy on a backend connection of that server is what is demanded *)
 Lemma refuted_5 :
-  impl_adapter none_fixed st0 alice (tx "games") payload0 =
-    [mkW (tx "Bob") true s_BungeeCord (tx "MyChan" ++ write_u16 3 ++ [1; 2; 3])] /\
-  holds_adapter st0 alice (tx "games") payload0 (impl_adapter none_fixed st0 alice (tx "games") payload0) = false /\
-  holds_adapter st0 alice (tx "games") payload0 (impl_adapter (mkF true false false false false) st0 alice (tx "games") payload0) = false /\
+  impl_adapter current st0 alice (tx "games") payload0 = [mkW (tx "Bob") true s_BungeeCord payload0] /\
+  holds_adapter st0 alice (tx "games") payload0 (impl_adapter current st0 alice (tx "games") payload0) = false /\
   holds_adapter st0 alice (tx "games") payload0 [mkW (tx "Bob") false s_BungeeCord payload0] = true.
 Proof. vm_compute. auto. Qed.
 
